@@ -170,7 +170,7 @@ PROPS["C11"] = {
 
 PROPS["C04"] = {
     "kind": "crash",
-    "modules": ["C04"], "required_theorems": ["crash_safe", "recover_facts", "launch_files_ok", "segs_op", "segs_ops", "step_launch_inv", "crashPairs_pjok", "crash_safe_not_banned",
+    "modules": ["C04"], "required_theorems": ["crash_safe", "crash_in_progress", "recover_facts", "launch_files_ok", "segs_op", "segs_ops", "step_launch_inv", "crashPairs_pjok", "crash_safe_not_banned",
                           "secHandlePriorSaves_apply", "secLaunchStartSaves_apply", "secLaunchSuccessSaves_apply", "secLaunchFailureSaves_apply",
                           "secNextBootPatchSaves_apply", "secClearEventsSaves_apply", "secRollBackSaves_apply", "secInstallSaves_apply"],
     "monitors": ["C04"],
